@@ -62,6 +62,8 @@ pub fn rdata_modelled(d: &RData) -> bool {
             | RData::DNSSEC(DNSSECRData::NSEC(_))
             | RData::DNSSEC(DNSSECRData::NSEC3(_))
             | RData::CSYNC(_)
+            | RData::SVCB(_)
+            | RData::HTTPS(_)
     )
 }
 
@@ -609,7 +611,7 @@ pub fn gen_rdata_tier(r: &mut Rng, pool: &mut NamePool) -> RData {
         12 => RData::ANAME(hickory_proto::rr::rdata::ANAME(pool.name(r, false))),
         14 | 15 => {
             // the name-free "blob" family (stage 3): a typed value obtained by decoding a well-formed seed
-            let t = *r.pick(&[43u16, 59, 48, 60, 52, 53, 44, 61, 37, 51, 257, 25, 35, 46, 47, 50, 62]);
+            let t = *r.pick(&[43u16, 59, 48, 60, 52, 53, 44, 61, 37, 51, 257, 25, 35, 46, 47, 50, 62, 64, 65]);
             let seed = crate::props::c01::seed_rdata(r, t);
             match RData::read(BinDecoder::new(&seed), RecordType::from(t)) {
                 Ok(d) => d,
